@@ -488,6 +488,71 @@ Definition drun (mk : descr -> descr) (vf : descr -> perr + descr) (ops : list d
 Definition touches (i : nat) (o : dop) : bool := Nat.eqb (op_slot o) i.
 
 (* ------------------------------------------------------------------ *)
+(* TaskManager.submit_tasks on a bulk of description objects             *)
+
+Definition uid_key : string := "uid"%string.
+
+(* ru.generate_id('task.%(item_counter)06d'): the harness renames the n-th generated uid GEN<n> *)
+Definition gen_uid (n : nat) : string := append "GEN" (dec (Z.of_nat n)).
+
+(* `if not td.uid: td.uid = <generated>` -- written into the caller's object *)
+Definition with_uid (d : descr) (u : string) : descr :=
+  if truthy (getv uid_key d) then d else set uid_key (VA (AStr u)) d.
+
+Definition uid_str (d : descr) : option string :=
+  match getv uid_key d with VA (AStr s) => Some s | _ => None end.
+
+Record sub_state := mkSub { ss_store : dstore; ss_known : list string; ss_gen : nat }.
+
+Inductive sub_outcome := SubOk | SubErr (e : perr) (slot : nat).
+
+(* The loop over the bulk (objects are named by their slot; one object may be listed twice).
+   Per description: reserve its uid (generate one if it has none; an application-chosen uid that
+   is already known ends the call with ValueError), then Task(descr) verifies it in place; a
+   refusal ends the call -- the uids reserved so far STAY reserved and the descriptions handled
+   so far stay as verify left them.  `made`: the tasks constructed in this call. *)
+Fixpoint submit_loop (vf : descr -> perr + descr) (ids : list nat) (s : sub_state) (made : list nat)
+  : sub_state * sub_outcome * list nat :=
+  match ids with
+  | [] => (s, SubOk, made)
+  | i :: r =>
+      match slot_get i (ss_store s) with
+      | None => (s, SubErr OtherError i, made)
+      | Some d =>
+          let fresh := negb (truthy (getv uid_key d)) in
+          let d1 := with_uid d (gen_uid (ss_gen s)) in
+          match uid_str d1 with
+          | None => (s, SubErr OutOfModel i, made)
+          | Some u =>
+              if negb fresh && mem_str u (ss_known s) then (s, SubErr ValueError i, made)
+              else
+                let known' := u :: ss_known s in
+                let gen' := if fresh then S (ss_gen s) else ss_gen s in
+                match vf d1 with
+                | inl e => (mkSub (slot_set i d1 (ss_store s)) known' gen', SubErr e i, made)
+                | inr v => submit_loop vf r (mkSub (slot_set i v (ss_store s)) known' gen') (made ++ [i])
+                end
+          end
+      end
+  end.
+
+(* one call: the tasks handed on (advance to TMGR_SCHEDULING_PENDING) are all or none *)
+Definition submit_call (vf : descr -> perr + descr) (ids : list nat) (s : sub_state)
+  : sub_state * sub_outcome * list nat :=
+  let '(s', out, made) := submit_loop vf ids s [] in
+  (s', out, match out with SubOk => made | SubErr _ _ => [] end).
+
+Fixpoint submit_calls (vf : descr -> perr + descr) (calls : list (list nat)) (s : sub_state)
+  : sub_state * list (sub_outcome * list nat * dstore) :=
+  match calls with
+  | [] => (s, [])
+  | ids :: r =>
+      let '(s', out, handed) := submit_call vf ids s in
+      let '(s'', rest) := submit_calls vf r s' in
+      (s'', (out, handed, ss_store s') :: rest)
+  end.
+
+(* ------------------------------------------------------------------ *)
 (* slots                                                               *)
 
 (* how the `cores` / `gpus` list of a slot is written; occupations are kept
